@@ -23,6 +23,11 @@ CHECKS = {
         technique='trace validation: token streams recorded from the real Lexer validated by the TLA+ machine LexTrace.tla (extends LineCol.tla) in TLC batches; inputs = all short strings over a lexical character alphabet + TLC-derived programs with rich layout',
         text='Each recorded token stream must be a behaviour of the LexTrace machine: tokens ordered and non-overlapping, every gap only white space / line terminators, every token at the line and column that LineCol counting (LF, CR, CRLF once, LS, PS, also inside tokens) reaches at its offset, text = input substring, longest punctuator, keyword iff exact spelling; TLC gives a verdict per stream naming the failing clause and token.',
         note='Trusted: character classification (unicodedata), substring/munch/keyword facts computed in harness/c06.py and asserted by the trace spec; AUTOSEMI tokens (no text) are not judged.'),
+    'C11': dict(
+        category='model_checking', design_ref='5 (C11)',
+        technique='trace validation: (lexpos, lineno, colno) of every node and every _token_map entry of real trees validated by PosTrace.tla (LineCol machine) in TLC batches; which tokens a node owns is dictated by the ES5Grammar.tla derivation of the same program',
+        text='For TLC-derived programs concretised with rich layout, every node position must be the LineCol position of its offset and must sit on the first token of the node or a terminal of its own production (ownership read off the derivation), and every token-map entry for a token present in the source must be an offset where that text occurs with consistent line/column; TLC gives a verdict per program naming the failing probe.',
+        note='Trusted: pairing of dictated and real nodes (programs whose trees differ are skipped, that is C03), anchoring/substring facts computed in harness/c11.py and asserted by the trace spec; placeholders of omitted for-clauses, nodes without tokens and ASI semicolons exempt as the property states.'),
 }
 
 NOT_YET = {}
